@@ -46,19 +46,24 @@ impl Property for C08 {
     type Case = Case;
     const ID: &'static str = "C08";
     fn rule() -> &'static str {
-        "families: 2D and 3D rotation-centred parameter objects built from an initial isometry (3D: Euler triples incl. pitch exactly +-pi/2 and +-pi/2 +- 1e-12..1e-2) and a rotation centre up to 1e3 from the origin, followed by a parameter update x (rotations up to +-pi, translations up to 1e3), a test point and a reference surface point on whose normal line the test point lies at signed offset d (the documented precondition of the plane Jacobians), every parameter index; multi-body handlers with 2-5 bodies, any static index, optional initial isometries. Oracle: round trips, inverse/centre consistency, pure-translation law, central finite differences (h = 1e-6(1+|x_k|)) of the residual each Jacobian differentiates, finite differences of Rx*Ry*Rz. Non-trivial: rotation centre farther than 10 from the origin and a rotation that is not axis-aligned. Distinct = distinct canonical JSON."
+        "families: 2D and 3D rotation-centred parameter objects built from an initial isometry (3D: Euler triples incl. pitch exactly +-pi/2 and +-pi/2 +- 1e-12..1e-2) and a rotation centre up to 1e3 from the origin, followed by a parameter update x (rotations up to +-pi, translations up to 1e3), a test point and a reference surface point on whose normal line the test point lies at signed offset d, 0.01..20 or, in a fifth of the cases, 1e-6..1e-2 with all coordinates within about 10 (the documented precondition of the plane Jacobians), every parameter index; multi-body handlers with 2-5 bodies, any static index, optional initial isometries. Oracle: round trips, inverse/centre consistency, pure-translation law, central finite differences (h = 1e-6(1+|x_k|)) of the residual each Jacobian differentiates, finite differences of Rx*Ry*Rz. Non-trivial: rotation centre farther than 10 from the origin and a rotation that is not axis-aligned. Distinct = distinct canonical JSON."
     }
     fn cases(t: Tier) -> u32 {
         t.pick(3_000_000, 20_000_000)
     }
     fn expected_labels() -> Vec<&'static str> {
-        vec!["rc2", "rc3", "handler", "gimbal_exact", "gimbal_near", "large_rc", "handler_initial", "handler_identity"]
+        vec!["rc2", "rc3", "handler", "gimbal_exact", "gimbal_near", "large_rc", "handler_initial", "handler_identity", "offset_below_1e-4"]
     }
     fn strategy(_t: Tier) -> BoxedStrategy<Case> {
         let tr = |m: f64| prop_oneof![3 => unif(-10.0, 10.0), 1 => unif(-m, m)];
         let rc2 = (iso2(1e3), (tr(1e3), tr(1e3)), (tr(1e3), tr(1e3), unif(-PI, PI)), p2(50.0), p2(50.0), unif(-PI, PI), p2(100.0)).prop_map(|(init, rc, x, p, sp, spn, v)| Case::Rc2 { init, rc: [rc.0, rc.1], x: [x.0, x.1, x.2], p, sp, spn, v });
-        let rc3 = (euler(), (tr(1e3), tr(1e3), tr(1e3)), (tr(1e3), tr(1e3), tr(1e3)), ((tr(1e3), tr(1e3), tr(1e3)), euler()), p3(50.0), unit3(), prop_oneof![unif(-20.0, -0.01), unif(0.01, 20.0)], p3(100.0))
-            .prop_map(|(e, t, rc, (xt, xe), p, n, d, v)| Case::Rc3 { e, t: [t.0, t.1, t.2], rc: [rc.0, rc.1, rc.2], x: [xt.0, xt.1, xt.2, xe.rx, xe.ry, xe.rz], p, n, d, v });
+        let rc3 = (euler(), (tr(1e3), tr(1e3), tr(1e3)), (tr(1e3), tr(1e3), tr(1e3)), ((tr(1e3), tr(1e3), tr(1e3)), euler()), p3(50.0), unit3(), prop_oneof![unif(-20.0, -0.01), unif(0.01, 20.0)], p3(100.0), prop::option::weighted(0.2, (logu(-6.0, -2.0), any::<bool>())))
+            .prop_map(|(e, t, rc, (xt, xe), p, n, d, v, close)| match close {
+                // test point and reference point 1e-6..1e-2 apart, everything else within about 10 of the origin so that the
+                // finite differences keep their accuracy
+                Some((dd, neg)) => Case::Rc3 { e, t: [t.0 * 0.01, t.1 * 0.01, t.2 * 0.01], rc: [rc.0 * 0.01, rc.1 * 0.01, rc.2 * 0.01], x: [xt.0 * 0.01, xt.1 * 0.01, xt.2 * 0.01, xe.rx, xe.ry, xe.rz], p: [p[0] * 0.2, p[1] * 0.2, p[2] * 0.2], n, d: if neg { -dd } else { dd }, v },
+                None => Case::Rc3 { e, t: [t.0, t.1, t.2], rc: [rc.0, rc.1, rc.2], x: [xt.0, xt.1, xt.2, xe.rx, xe.ry, xe.rz], p, n, d, v },
+            });
         let handler = (2usize..=5, any::<u8>(), prop::collection::vec((euler(), p3(100.0), p3(100.0)), 5), any::<bool>(), prop::collection::vec(unif(-3.0, 3.0), 24)).prop_map(|(n, static_i, bodies, with_initial, x)| Case::Handler { n, static_i, bodies, with_initial, x });
         prop_oneof![3 => rc2, 6 => rc3, 2 => handler].boxed()
     }
@@ -271,7 +276,9 @@ fn rc3(e: &Euler, t: &P3, rc: &P3, x: &[f64; 6], p: &P3, n: &P3, d: f64, v: &P3)
     let jq = point_point_jacobian(&pc, &c.point, &params);
     for k in 0..6 {
         // the step keeps the induced motion far below the offset d, where |.| and the point distance are nonlinear
-        let h = if k < 3 { (1e-6 * (1.0 + x[k].abs())).min(1e-4 * d.abs()) } else { (1e-6f64).min(1e-4 * d.abs() / arm) };
+        // (for offsets below 0.01 a larger fraction of the offset, or rounding of the coordinates would swamp the difference)
+        let fac = if d.abs() < 0.01 { 3e-3 } else { 1e-4 };
+        let h = if k < 3 { (1e-6 * (1.0 + x[k].abs())).min(fac * d.abs()) } else { (1e-6f64).min(fac * d.abs() / arm) };
         let mut f = [[0.0; 2]; 3];
         for (j, sgn) in [(0, -1.0), (1, 1.0)] {
             let mut xx = xv;
@@ -292,6 +299,7 @@ fn rc3(e: &Euler, t: &P3, rc: &P3, x: &[f64; 6], p: &P3, n: &P3, d: f64, v: &P3)
         let fd2 = (f[2][1] - f[2][0]) / (2.0 * h);
         ensure!((fd2 - jq[k]).abs() <= tolj, format!("C08/jacobian3/point_point/param{k}"), "analytic {:e} vs finite difference {fd2:e} of |T p - c| for parameter {k}", jq[k]);
     }
+    cx.label_if(d.abs() < 1e-4, "offset_below_1e-4");
     let generic = [x[3], x[4], x[5]].iter().all(|a| (a / FRAC_PI_2 - (a / FRAC_PI_2).round()).abs() > 1e-3);
     cx.label_if(rcp.coords.norm() > 10.0, "large_rc");
     if rcp.coords.norm() > 10.0 && generic {
